@@ -6,6 +6,8 @@ use iced_x86::{Code, Encoder, Instruction, Register};
 use serde::{Deserialize, Serialize};
 
 pub const SLOT: u64 = 16;
+/// data area used by the XMM load/store slots (absolute disp32 addressing)
+pub const XMM_DATA: u64 = 0x60_0000;
 pub const REGS: [Register; 10] = [Register::RAX, Register::RCX, Register::RDX, Register::RBX, Register::RSI, Register::RDI, Register::R8, Register::R9, Register::R10, Register::R11];
 
 #[derive(Clone, Debug, Serialize, Deserialize, PartialEq)]
@@ -39,6 +41,14 @@ pub enum PI {
     PushImm { imm: i32 },
     Push16 { r: u8 },
     Pop16 { r: u8 },
+    /// mov r64, r64
+    MovReg { a: u8, b: u8 },
+    /// jmp r64 / call r64 with whatever the register holds
+    JmpR { r: u8 },
+    CallR { r: u8 },
+    /// op: 0 movups a,b (0F 10) 1 movups a,b (0F 11 encoding, register destination) 2 xorps a,b
+    /// 3 movd xmm_a, r32_b 4 movd r32_a, xmm_b 5 movups [data+16*b], xmm_a 6 movups xmm_a, [data+16*b]
+    Xmm { op: u8, a: u8, b: u8 },
 }
 
 pub const JCC32: [Code; 16] = [
@@ -201,6 +211,44 @@ pub fn assemble(prog: &[PI], base: u64) -> Vec<u8> {
             PI::Pop16 { r: k } => {
                 enc1(Instruction::with1(Code::Pop_r16, Register::AX + (r(k).number() as u32)).unwrap(), ip, &mut b);
             }
+            PI::MovReg { a, b: bb } => {
+                enc1(Instruction::with2(Code::Mov_r64_rm64, r(a), r(bb)).unwrap(), ip, &mut b);
+            }
+            PI::JmpR { r: k } => {
+                enc1(Instruction::with1(Code::Jmp_rm64, r(k)).unwrap(), ip, &mut b);
+            }
+            PI::CallR { r: k } => {
+                enc1(Instruction::with1(Code::Call_rm64, r(k)).unwrap(), ip, &mut b);
+            }
+            PI::Xmm { op, a, b: bb } => {
+                let xa = Register::XMM0 + (*a as u32 % 8);
+                let xb = Register::XMM0 + (*bb as u32 % 8);
+                let mem = iced_x86::MemoryOperand::with_displ(XMM_DATA + 16 * (*bb as u64 % 8), 4);
+                match op % 7 {
+                    0 => {
+                        enc1(Instruction::with2(Code::Movups_xmm_xmmm128, xa, xb).unwrap(), ip, &mut b);
+                    }
+                    1 => {
+                        // the store encoding with a register destination: 0F 11 /r, mod = 3, reg = source, rm = destination
+                        b.extend_from_slice(&[0x0f, 0x11, 0xc0 | ((xb.number() as u8 & 7) << 3) | (xa.number() as u8 & 7)]);
+                    }
+                    2 => {
+                        enc1(Instruction::with2(Code::Xorps_xmm_xmmm128, xa, xb).unwrap(), ip, &mut b);
+                    }
+                    3 => {
+                        enc1(Instruction::with2(Code::Movd_xmm_rm32, xa, Register::EAX + (r(bb).number() as u32)).unwrap(), ip, &mut b);
+                    }
+                    4 => {
+                        enc1(Instruction::with2(Code::Movd_rm32_xmm, Register::EAX + (r(a).number() as u32), xb).unwrap(), ip, &mut b);
+                    }
+                    5 => {
+                        enc1(Instruction::with2(Code::Movups_xmmm128_xmm, mem, xa).unwrap(), ip, &mut b);
+                    }
+                    _ => {
+                        enc1(Instruction::with2(Code::Movups_xmm_xmmm128, xa, mem).unwrap(), ip, &mut b);
+                    }
+                }
+            }
         }
         assert!(b.len() <= SLOT as usize, "slot overflow: {:?}", pi);
         b.resize(SLOT as usize, 0x90);
@@ -216,6 +264,8 @@ pub struct ProgOpts {
     /// then (stack programs only) storersp, loadrsp, learsp, addrsp, pushimm, push16, pop16
     pub w: [u32; 16],
     pub w_stack: [u32; 7],
+    /// movreg, jmpr, callr, xmm
+    pub w_extra: [u32; 4],
     /// allow branch targets at the end address / past it
     pub end_targets: bool,
     /// allow backward branches
@@ -224,14 +274,14 @@ pub struct ProgOpts {
 
 impl ProgOpts {
     pub fn straight() -> ProgOpts {
-        ProgOpts { max_len: 30, w: [8, 12, 12, 8, 6, 10, 6, 3, 2, 5, 2, 3, 3, 3, 0, 1], w_stack: [0; 7], end_targets: true, backward: true }
+        ProgOpts { max_len: 30, w: [8, 12, 12, 8, 6, 10, 6, 3, 2, 5, 2, 3, 3, 3, 0, 1], w_stack: [0; 7], w_extra: [0; 4], end_targets: true, backward: true }
     }
     /// stack-centred programs for C04: pushes/pops/calls/returns mixed with RSP-relative accesses
     pub fn stacky() -> ProgOpts {
-        ProgOpts { max_len: 14, w: [2, 6, 3, 2, 1, 3, 2, 1, 0, 10, 4, 10, 14, 14, 0, 0], w_stack: [10, 10, 3, 5, 4, 3, 3], end_targets: false, backward: false }
+        ProgOpts { max_len: 14, w: [2, 6, 3, 2, 1, 3, 2, 1, 0, 10, 4, 10, 14, 14, 0, 0], w_stack: [10, 10, 3, 5, 4, 3, 3], w_extra: [0; 4], end_targets: false, backward: false }
     }
     pub fn branchy() -> ProgOpts {
-        ProgOpts { max_len: 28, w: [3, 5, 8, 6, 3, 22, 10, 6, 3, 12, 6, 12, 1, 1, 0, 0], w_stack: [0; 7], end_targets: true, backward: true }
+        ProgOpts { max_len: 28, w: [3, 5, 8, 6, 3, 22, 10, 6, 3, 12, 6, 12, 1, 1, 0, 0], w_stack: [0; 7], w_extra: [0; 4], end_targets: true, backward: true }
     }
 }
 
@@ -239,6 +289,7 @@ impl ProgOpts {
 pub fn gen_slot(t: &mut Tape, i: usize, n: usize, o: &ProgOpts) -> PI {
     let mut w: Vec<u32> = o.w.to_vec();
     w.extend_from_slice(&o.w_stack);
+    w.extend_from_slice(&o.w_extra);
     let kind = t.weighted(&w);
     let reg = |t: &mut Tape| t.below(REGS.len() as u64) as u8;
     let target = |t: &mut Tape| -> usize {
@@ -275,7 +326,11 @@ pub fn gen_slot(t: &mut Tape, i: usize, n: usize, o: &ProgOpts) -> PI {
         19 => PI::AddRsp { imm: (8 * (t.below(7) as i64 - 3)) as i8 },
         20 => PI::PushImm { imm: t.val64() as i32 },
         21 => PI::Push16 { r: reg(t) },
-        _ => PI::Pop16 { r: reg(t) },
+        22 => PI::Pop16 { r: reg(t) },
+        23 => PI::MovReg { a: reg(t), b: reg(t) },
+        24 => PI::JmpR { r: reg(t) },
+        25 => PI::CallR { r: reg(t) },
+        _ => PI::Xmm { op: t.below(7) as u8, a: t.below(8) as u8, b: t.below(8) as u8 },
     }
 }
 
